@@ -88,6 +88,9 @@ def run(eng, rep) -> None:
     from .lints import population_through_dict
     population_through_dict(eng, rep, "R14.7", ("fcp.verifier",), "nodes that share a name with a later one (an impl named like another protocol's impl) are never verified, so what the checks would reject reaches the generators")
     rep.rule("R14.6", "groups made by itertools.groupby over an unsorted registry are not stored by key with overwrite")
+    rep.rule("R14.8", "a cycle guard in a check forgets an element when the walk leaves it (reject-on-revisit with a grow-only set rejects diamonds)")
+    from .lints import grow_only_cycle_guard
+    grow_only_cycle_guard(eng, rep, "R14.8", ("fcp.verifier", "fcp_dbc", "fcp_can_c"), "a valid schema is refused")
     from .lints import groupby_overwrite
     groupby_overwrite(eng, rep, "R14.6", ("fcp.verifier", "fcp_dbc", "fcp_can_c"), "checks registered earlier under that category are never run, so an oversized message they would reject is generated")
     rep.assume("leaf extents and dlc come from the tiling cursor (C04/C05/C06); cantools is not re-checked")
